@@ -31,6 +31,14 @@ CHECKS = {
         text="The real visit_leaves, transform, multi-TAN and multi-WCS producer/worker code runs over the virtual multiprocessing layer; every interleaving of puts, feeder flushes, receives, receive timeouts, close/join_thread, the done flag and worker exits is explored per configuration; at every terminal state the processed item set must equal the serial set (itself compared with the reference quadtree), every item is delivered at most once with its own tile geometry, all workers have exited, no lock file remains; the termination analysis shows a returning continuation from every reachable state.",
         note=_E1_NOTE,
     ),
+    "C08": dict(
+        engine="bex",
+        category="exploration",
+        design_ref="5/C08",
+        technique="bounded-exhaustive enumeration of image sizes / sub-images / modes x formats against a reference tiling model and partition laws",
+        text="Every (width, height) in 1..600 squared (1..1100 squared plus long strips to 2100 in thorough) goes through StudyTiling: layout against the reference (smallest power-of-two square, floor-centred), the rectangles of generate_populated_positions are pairwise disjoint, inside their tiles, cover exactly the image, match count_populated_positions and image_to_tile (every pixel for small images); sub-images of three parents on the tile-boundary lattice; real images of 16-100 sizes x up to 10 (mode, lossless format) pairs x both naming schemes are tiled and reassembled through the WTML URL template and compared pixel-exactly with the reference canvas (undefined outside the image, FITS rows reversed).",
+        note="Reference model vt/ref/tiling.py from the statement. RGB/png cannot carry a mask: only colour inside the image is compared there.",
+    ),
     "C10": dict(
         engine="vmp",
         category="model_checking",
@@ -46,6 +54,22 @@ CHECKS = {
         technique="bounded-exhaustive enumeration of filters x apexes x depths against a reference quadtree; all position pairs to a depth bound",
         text="Every effective depth-2 TOAST filter (17^4), every depth-1 filter, generic pyramids to depth 4-5 with every apex (to depth 3) and a 51-filter family with every apex are pushed through count_leaf_tiles/count_live_tiles/count_operations, visit_leaves, walk and the position generator and compared with an independent reference quadtree, the closed forms and the sub-pyramid/full differential; the position algebra is checked on every pair of positions to depth 4 (5 in thorough).",
         note="Reference model vt/ref/quadtree.py written from the documentation. Depth-3 filters exhaustive only within one level-1 quadrant (thorough).",
+    ),
+    "C15": dict(
+        engine="bex",
+        category="model_checking",
+        design_ref="5/C15",
+        technique="exhaustive pattern enumeration for buffer ops + breadth-first search over operation histories on a tile directory against a reference dict",
+        text="Buffers: all 8 modes x 4 slice-indexer kinds (full, sub-rectangle, negative-step rows to row 0 and inner) x all 2^6 source x 2^6 destination defined/undefined patterns for update, fill (plus pointwise integer-array indexers), clear, is_completely_masked and make_maskable_buffer against a per-pixel reference. Persistence: BFS over histories of a 9-operation alphabet (write defined A/B, partly undefined, all undefined; read default none/masked; update identity/region; stale file) to depth 3 (4) per (mode, lossless format, naming scheme) - 15 pairs x 2 - with the file-exists-iff-reference invariant and exact read-back checked after every step.",
+        note="Format capability table fixed from the formats' definitions. Known finding: all-zero integer tiles are stored (see known_findings.json).",
+    ),
+    "C17": dict(
+        engine="bex",
+        category="model_checking",
+        design_ref="5/C17",
+        technique="exhaustive position x scheme x format enumeration of the URL template + BFS over tile_fits call histories + per-workflow WTML-vs-disk comparison",
+        text="The WTML URL template is expanded the way a WWT client does it (independent expander) for every position to depth 4 and a boundary lattice to depth 6 (9) under both naming schemes and four formats and must equal the path PyramidIO writes to, injectively; eight (thirteen) workflow runs (tile-study png/FITS with and without cascade, tile-allsky, tile-multi-tan, pipeline process-todos with a non-square image) are checked for orphan/missing tiles, FileType and TileLevels; tile_fits is driven through every history fresh,(reuse|override)^k, k<=2 (3) in TAN (1 and 2 inputs) and TOAST mode and the returned Builder is compared attribute-by-attribute with the index_rel.wtml on disk after every call.",
+        note="HiPS (Java + download) is outside the sandbox. Reuse is judged for identical repeated calls only.",
     ),
     "C18": dict(
         engine="bex",
